@@ -470,6 +470,7 @@ func runC06extra(c *Ctx) {
 	clauseLRUPin(c, "C06.l")
 	clauseStreamPosition(c, "C06.m")
 	clauseKeyInjective(c, "C06.n", [][2]string{{"fs/remote", "(*httpFetcher).genID"}})
+	clauseRangeLabelAndCompleteHit(c, "C06.o")
 }
 
 // sliceVarKey names the variable a slice value was loaded from ("" when it is not a load).
